@@ -106,7 +106,10 @@ def judge(check, scenarios, name, trace, runs, v, module, consts, allow_relax=Tr
             check.violation("%s violated by the real code (scenario %s, run %d, trace line %d)" % (x["inv"], k[0], k[1], x["line"]),
                             replay_of(x["run"], {"invariant": x["inv"]}))
     if v["mismatches"]:
-        mis_runs = [m["run"] for m in v["mismatches"]]
+        mis_runs = [m["run"] for m in v["mismatches"]] + list(v.get("unvalidated", []))
+        if v.get("unvalidated"):
+            # the runs the L2 specification did not get to are judged by the L1-only oracle as well
+            check.tool_errors[:] = [e for e in check.tool_errors if not str(e).startswith("UNVALIDATED[%s]" % name)]
         ev0 = v["mismatches"][0]["event"]
         check.drift.append("%s: %d run(s) of the real code are not behaviours of %s (first unmatched event: %s)" % (name, len(mis_runs), module, json.dumps(ev0)[:300]))
         # fall back to the L1-only oracle for those runs
